@@ -53,7 +53,7 @@ func genLayers() {
 		}
 		return fn
 	}
-	for _, fn := range []string{"merge", "replacesGroup", "layerWriter.alignStacks"} {
+	for _, fn := range []string{"merge", "replacesGroup", "layerWriter.alignStacks", "Context.buildLayers"} {
 		l.defStrList("stmts_"+name(fn), stmts(fn))
 	}
 	want := func(fn, fact string, pred func(n ast.Node, src string) bool) {
@@ -65,6 +65,12 @@ func genLayers() {
 		l.defStr(fact, s)
 	}
 	g := "groupByOriginAndSize"
+	// the guard in front of everything else (negative budgets are rejected)
+	if st := stmts(g); len(st) > 0 {
+		l.defStr("groupBudgetGuard", st[0])
+	} else {
+		l.defStr("groupBudgetGuard", "<missing>")
+	}
 	// the first loop: grouping by origin
 	want(g, "groupFirstLoop", func(n ast.Node, s string) bool {
 		_, ok := n.(*ast.RangeStmt)
